@@ -124,14 +124,37 @@ Definition call2 (f : string) (x y : val) : option val :=
   else if String.eqb f "ENDS_WITH" then Some (str2 (fun a b => is_suffix b a) x y)
   else if String.eqb f "REGEXP_MATCHES" then Some (str2 (fun a b => contains b a) x y)   (* plain patterns only *)
   else None.
+(** characters with 0-based index in [start, start + l) *)
+Definition sub_from (start l : Z) (s : string) : string :=
+  let n := Z.of_nat (String.length s) in
+  let e := start + l in
+  if (e <=? start) || (n <=? start) then EmptyString
+  else stake (Z.to_nat (e - Z.max start 0)) (sdrop (Z.to_nat (Z.max start 0)) s).
+(** DuckDB 1.2 (SubstringStartEnd, the path taken for ASCII column data): 1-based; position 0 lies BEFORE the string
+    (one character fewer); a negative position counts from the end and, when it falls before the string, is
+    moved to its start WITHOUT shortening the length *)
+Definition substr_duck (s : string) (p l : Z) : string :=
+  let n := Z.of_nat (String.length s) in
+  if l =? 0 then EmptyString
+  else if 0 <? p then sub_from (p - 1) l s
+  else if p <? 0 then sub_from (Z.max (n + p) 0) l s
+  else sub_from 0 (l - 1) s.
+(** Spark (UTF8String.substringSQL): the same, except that position 0 is read as position 1 *)
+Definition substr_spark (s : string) (p l : Z) : string :=
+  sub_from (if 0 <? p then p - 1 else if p <? 0 then Z.of_nat (String.length s) + p else 0) l s.
+Definition substr3 (f : string -> Z -> Z -> string) (x y z : val) : val :=
+  match x, y, z with
+  | VStr s, VInt p, VInt l => if 0 <=? l then VStr (f s p l) else VNull
+  | _, _, _ => VNull
+  end.
 Definition call3 (f : string) (x y z : val) : option val :=
-  if String.eqb f "SUBSTRING" then
-    Some (match x, y, z with
-          | VStr s, VInt p, VInt l =>
-              if (1 <=? p) && (0 <=? l) then VStr (stake (Z.to_nat l) (sdrop (Z.to_nat (p - 1)) s)) else VNull
-          | _, _, _ => VNull
-          end)
-  else None.
+  if String.eqb f "SUBSTRING" then Some (substr3 substr_duck x y z) else None.
+
+(** a fractional value cast to an integer type: DuckDB rounds half to even, Spark truncates *)
+Definition round_half_even (n : Z) (d : positive) : Z :=
+  let fl := n / Zpos d in
+  let r2 := 2 * (n - fl * Zpos d) in
+  if r2 <? Zpos d then fl else if Zpos d <? r2 then fl + 1 else if Z.even fl then fl else fl + 1.
 
 Definition cast_to (ty : string) (v : val) : val :=
   if String.eqb ty "TEXT" then
@@ -142,12 +165,23 @@ Definition cast_to (ty : string) (v : val) : val :=
     | _ => VNull
     end
   else if String.eqb ty "BIGINT" || String.eqb ty "INT" then
-    match v with VInt z => VInt z | VBool b => VInt (if b then 1 else 0) | _ => VNull end
+    match v with
+    | VInt z => VInt z | VBool b => VInt (if b then 1 else 0)
+    | VRat n d => VInt (round_half_even n d)
+    | _ => VNull
+    end
   else if String.eqb ty "DOUBLE" then
     match v with VInt z => VRat z 1 | VRat n d => VRat n d | _ => VNull end
   else if String.eqb ty "BOOLEAN" then
-    match v with VBool b => VBool b | VInt z => VBool (negb (z =? 0)) | _ => VNull end
+    match v with VBool b => VBool b | VInt z => VBool (negb (z =? 0)) | VRat n _ => VBool (negb (n =? 0)) | _ => VNull end
   else VNull.
+
+(** Spark's cast: as the engine's, except that a fractional value is truncated towards zero *)
+Definition cast_spark (ty : string) (v : val) : val :=
+  match v with
+  | VRat n d => if String.eqb ty "BIGINT" || String.eqb ty "INT" then VInt (Z.quot n (Zpos d)) else cast_to ty v
+  | _ => cast_to ty v
+  end.
 
 Definition in3 (x : val) (vs : list val) : val :=
   match x with
